@@ -272,6 +272,19 @@ func runC04(d *drv, r *rand.Rand, thorough bool) {
 			s.recv(a.f(bigDoms[r.Intn(4)], 256+r.Intn(6)))
 		}
 	}
+	// thousands of refreshes and re-definitions of known keys, then the first template of another domain and data for it
+	{
+		s := d.open(collector.DecodingModeStrict, "long")
+		d.logStore = false // (the store is looked at once, at the end)
+		for i := 0; i < 5000; i++ {
+			a := alpha[[]int{0, 0, 0, 1}[i%4]] // T1 three times, T2 once: refreshes and re-definitions
+			s.recv(a.f(1, 256))
+		}
+		d.logStore = true
+		s.recv(alpha[0].f(2, 300))
+		s.recv(dataMsg(2, 300, []byte{1, 2, 3}))
+		s.recv(dataMsg(1, 256, []byte{2, 0, 9}))
+	}
 	runC04Race(d, r, thorough)
 }
 
@@ -461,6 +474,14 @@ func runC17(d *drv, r *rand.Rand, thorough bool, custom []*entities.InfoElement)
 			s.recv(dataMsg(9, 300, append(mkBody(old), mkBody(old)...)))
 			s.recv(tmplMsg(9, 300, specsOf(nw)))
 			s.recv(dataMsg(9, 300, append(mkBody(nw), mkBody(nw)...)))
+		}
+	}
+	// unknown elements declared with long fixed lengths (around and beyond one byte's worth)
+	for _, ln := range []int{254, 255, 256, 257, 300, 511, 512, 1000} {
+		for _, ent := range []uint32{0, 12345} {
+			unk := slot{absv.Spec{ID: 940 + ln%7, Len: ln, Ent: ent}, "octetArray"}
+			run([]slot{{absv.SpecOf(kFixed), "unsigned16"}, unk, {absv.SpecOf(kVar), "string"}}, "longfixed")
+			run([]slot{unk, unk, {absv.SpecOf(kFixed), "unsigned16"}}, "longfixed")
 		}
 	}
 	// wide templates (65..80 fields): unknown elements beyond position 64
